@@ -221,7 +221,7 @@ func (g *G) plainStmt(sc *scope, depth int) []string {
 }
 
 func (g *G) tryPlain(sc *scope, depth int) []string {
-	k := g.pick("stmtkind", 30)
+	k := g.pick("stmtkind", 33)
 	switch k {
 	case 0, 1, 2:
 		return g.defineStmt(sc, depth)
@@ -296,6 +296,16 @@ func (g *G) tryPlain(sc *scope, depth int) []string {
 		if !g.fn.pure && !g.cfg.NoClosures {
 			return g.effectfulOperandStmt(sc)
 		}
+	case 30:
+		if g.generics && !g.fn.pure {
+			return g.genericLayoutStmt(sc, depth)
+		}
+	case 31:
+		if !g.fn.pure {
+			return g.structSnapshotStmt(sc)
+		}
+	case 32:
+		return g.emptyWindowStmt(sc)
 	case 23:
 		if !g.cfg.NoBareBlocks && depth > 0 {
 			g.label("bare-block")
@@ -1349,4 +1359,142 @@ func (g *G) effectfulOperandStmt(sc *scope) []string {
 	out = append(out, seen+" := *"+cnt)
 	g.declare(sc, &Var{Name: seen, T: TU64})
 	return out
+}
+
+// genericLayoutStmt instantiates the generic helpers that depend on the LAYOUT of their type
+// parameter (zero value, allocation, load and store at type T) at scalars, structs, slices and —
+// the interesting case — pointers (seeded change C01-20: `*S` passed as struct.t S).
+func (g *G) genericLayoutStmt(sc *scope, depth int) []string {
+	var t *Ty
+	switch g.pick("gltype", 6) {
+	case 0:
+		t = g.scalarTy("glscalar")
+	case 1, 2:
+		if len(g.prog.Structs) > 0 {
+			t = PtrTo(&Ty{K: KStruct, S: g.prog.Structs[g.pick("glpst", len(g.prog.Structs))]})
+		} else {
+			t = PtrTo(g.intTy("glpint"))
+		}
+	case 3:
+		t = PtrTo(g.intTy("glpint2"))
+	case 4:
+		if len(g.prog.Structs) > 0 {
+			t = &Ty{K: KStruct, S: g.prog.Structs[g.pick("glst", len(g.prog.Structs))]}
+		} else {
+			t = TU32
+		}
+	default:
+		t = SliceOf(g.intTy("glslice"))
+	}
+	g.ctr++
+	n := g.ctr
+	z, np, ld, old := fmt.Sprintf("gz%d", n), fmt.Sprintf("gn%d", n), fmt.Sprintf("gl%d", n), fmt.Sprintf("go%d", n)
+	for _, x := range []string{z, np, ld, old} {
+		g.fn.names[x] = true
+	}
+	g.label("generic-layout")
+	if t.K == KPtr {
+		g.label("generic-layout-at-pointer-type")
+	}
+	inst := func() string {
+		if g.chance("glexplicit", 50) {
+			return "[" + t.Go() + "]"
+		}
+		return ""
+	}
+	val := g.exprTyped(sc, t, 1, false)
+	val2 := g.exprTyped(sc, t, 1, false)
+	out := []string{
+		z + " := gzero[" + t.Go() + "]()",
+		np + " := gnew" + inst() + "(" + castLit(t, val) + ")",
+		old + " := gstore" + inst() + "(" + np + ", " + castLit(t, val2) + ")",
+		ld + " := *" + np,
+	}
+	nn := t.K == KPtr || t.K == KMap
+	g.declare(sc, &Var{Name: z, T: t})
+	g.declare(sc, &Var{Name: np, T: PtrTo(t), NonNil: true})
+	g.declare(sc, &Var{Name: old, T: t, NonNil: nn})
+	g.declare(sc, &Var{Name: ld, T: t, NonNil: nn})
+	if t.K == KPtr || t.K == KSlice {
+		// the zero value of a pointer / slice type is nil
+		r := fmt.Sprintf("gb%d", n)
+		g.fn.names[r] = true
+		out = append(out, r+" := "+z+" == nil")
+		g.declare(sc, &Var{Name: r, T: TBool})
+		for _, v := range sc.vars {
+			if v.Name == z {
+				v.Used = true
+			}
+		}
+	}
+	return out
+}
+
+// structSnapshotStmt: a struct copied out of a pointer (in each declaration form), the original
+// then modified through the pointer, the copy read afterwards: the copy must keep the old contents
+// (seeded change C01-21).
+func (g *G) structSnapshotStmt(sc *scope) []string {
+	ps := g.varsOf(sc, func(v *Var) bool {
+		return v.T != nil && v.T.K == KPtr && v.NonNil && v.T.Elem.K == KStruct && v.Closure == nil
+	})
+	if len(ps) == 0 {
+		return nil
+	}
+	p := ps[g.pick("snapptr", len(ps))]
+	st := p.T.Elem
+	g.ctr++
+	name := fmt.Sprintf("sn%d", g.ctr)
+	g.fn.names[name] = true
+	g.label("struct-snapshot-then-modify-original")
+	var out []string
+	mut := false
+	switch g.pick("snapform", 4) {
+	case 0:
+		out = append(out, "var "+name+" = *"+use(p))
+		mut = true
+	case 1:
+		out = append(out, "var "+name+" "+st.Go()+" = *"+use(p))
+		mut = true
+	case 2:
+		out = append(out, name+" := *"+use(p))
+	default:
+		out = append(out, "var "+name+" "+st.Go(), name+" = *"+use(p))
+		mut = true
+	}
+	for _, f := range st.S.Fields {
+		if f.T.Scalar() {
+			out = append(out, p.Name+"."+f.Name+" = "+g.expr(sc, f.T, 1))
+		}
+	}
+	g.declare(sc, &Var{Name: name, T: st, Mutable: mut})
+	return out
+}
+
+// emptyWindowStmt: an empty or constant-bound sub-slice keeps the capacity behind it (seeded
+// change C01-19): cap of s[:0], s[n:n], s[0:n] on slices that are never appended to.
+func (g *G) emptyWindowStmt(sc *scope) []string {
+	vs := g.varsOf(sc, func(v *Var) bool { return v.T != nil && v.T.K == KSlice && v.MinLen >= 1 && !v.Mutable && !v.Big })
+	if len(vs) == 0 {
+		return nil
+	}
+	s := vs[g.pick("ewvar", len(vs))]
+	g.ctr++
+	w, c := fmt.Sprintf("ew%d", g.ctr), fmt.Sprintf("ec%d", g.ctr)
+	g.fn.names[w], g.fn.names[c] = true, true
+	g.label("empty-window-capacity")
+	n := g.pick("ewn", s.MinLen+1)
+	var e string
+	switch g.pick("ewform", 4) {
+	case 0:
+		e = fmt.Sprintf("%s[:0]", use(s))
+	case 1:
+		e = fmt.Sprintf("%s[%d:%d]", use(s), n, n)
+	case 2:
+		e = fmt.Sprintf("%s[0:%d]", use(s), n)
+	default:
+		e = fmt.Sprintf("%s[%d:]", use(s), n)
+	}
+	g.declare(sc, &Var{Name: w, T: s.T, MinLen: 0})
+	g.declare(sc, &Var{Name: c, T: TU64})
+	return []string{w + " := " + e, c + " := uint64(cap(" + w + "))*1000 + uint64(len(" + w + "))"}
 }
